@@ -1101,6 +1101,16 @@ static void run_path(uint64_t seed, uint64_t idx, const std::string& outdir, FIL
         if (g.coin()) rp.rotate(((double)g.range(-180, 180)) * M_PI / 180, Vec2{1, 2});
         em.T("transformed");
     }
+    // magnification: trafo, offset_scale, end extensions and (with scale_width) width_scale all take part
+    if (!directed && g.chance(30)) {
+        static const double sfs[] = {2, 0.5, 1.5, 3};
+        double sf = sfs[g.below(4)];
+        rp.scale_width = g.chance(70);
+        rp.scale(sf, Vec2{1, 2});
+        B.Wmax *= sf;
+        for (auto& c : B.el) c.ext = c.ext * sf;
+        em.T(rp.scale_width ? "scaled-with-width" : "scaled-offsets-only");
+    }
     em.T("elements-" + std::to_string(B.n));
     em.T("sections-" + std::to_string(rp.subpath_array.count > 6 ? 6 : rp.subpath_array.count));
     if (getenv("C08_TRACE")) {
@@ -1138,6 +1148,29 @@ static void run_path(uint64_t seed, uint64_t idx, const std::string& outdir, FIL
 }
 
 // ------------------------------------------------------------------ parent
+// VERIF_KINDS (comma list) restricts the case kinds that are recorded (used when another property's check runs this
+// harness for its PATH-record cases only); crashes are always recorded
+static bool kind_wanted(const std::string& kind) {
+    static int init = 0;
+    static std::vector<std::string> want;
+    if (!init) {
+        init = 1;
+        if (const char* k = getenv("VERIF_KINDS")) {
+            std::string s(k);
+            size_t p = 0;
+            while (p <= s.size()) {
+                size_t e = s.find(',', p);
+                if (e == std::string::npos) e = s.size();
+                if (e > p) want.push_back(s.substr(p, e - p));
+                p = e + 1;
+            }
+        }
+    }
+    if (want.empty()) return true;
+    for (auto& w : want)
+        if (w == kind) return true;
+    return false;
+}
 static void absorb(Out& out, const std::string& res, const std::string& gid) {
     if (res.compare(0, 4, "HANG") == 0 || res.compare(0, 5, "CRASH") == 0 || res == "PIPEFAIL") {
         std::string id = out.add("crash", gid);
@@ -1145,6 +1178,7 @@ static void absorb(Out& out, const std::string& res, const std::string& gid) {
         out.P(id, "FAIL robustpath-crash the construction / query / to_polygons / record sequence ended with " + res);
         return;
     }
+    bool skip = false;
     std::string id;
     size_t pos = 0;
     while (pos < res.size()) {
@@ -1157,8 +1191,11 @@ static void absorb(Out& out, const std::string& res, const std::string& gid) {
         std::string rest = line.substr(2);
         if (tag == 'K') {
             size_t t = rest.find('\t');
+            skip = !kind_wanted(rest.substr(0, t));
+            if (skip) continue;
             id = out.add(rest.substr(0, t), t == std::string::npos ? "" : rest.substr(t + 1));
-        } else if (tag == 'I') out.I(id, rest);
+        } else if (skip) continue;
+        else if (tag == 'I') out.I(id, rest);
         else if (tag == 'P') out.P(id, rest);
         else if (tag == 'T') out.count(rest);
     }
@@ -1226,7 +1263,7 @@ int main(int argc, char** argv) {
         uint64_t sd, idx;
         if (parse_gid(kp.second, sd, idx)) one(sd, idx);
     }
-    probes(out);
+    if (kind_wanted("probe")) probes(out);
     uint64_t npaths = tier == "thorough" ? 4000 : 160;
     for (uint64_t idx = 0; idx < npaths; idx++) one(seed, idx);
     out.close();
